@@ -239,7 +239,20 @@ func main() {
 		c := newCtx(r.Property, "quick", 0, 1, time.Hour)
 		c.Replay = true
 		initBaseline()
-		if st, pan := protect(func() { p.Replay(c, r.Case, r.Choices) }); pan {
+		var seq struct {
+			Sequence []json.RawMessage `json:"sequence"`
+		}
+		json.Unmarshal(r.Case, &seq)
+		if st, pan := protect(func() {
+			if len(seq.Sequence) > 0 {
+				// a multi-step history: replay the cases in order in this one process
+				for _, cs := range seq.Sequence {
+					p.Replay(c, cs, nil)
+				}
+				return
+			}
+			p.Replay(c, r.Case, r.Choices)
+		}); pan {
 			fmt.Println("harness panic:", st)
 			os.Exit(2)
 		}
